@@ -231,6 +231,7 @@ func genXLSX(r *hx.Rng) *pkg {
 			p.Notes = append(p.Notes, "dangling-default-collision")
 		}
 	}
+	p.applyFlavour(r.Fork(0xf1a7)) // namespace flavour of the markup (flavour.go), own stream
 	p.admissionVariant(r.Fork(0xad31))
 	p.finishZip(r, "")
 	return p
